@@ -102,6 +102,16 @@ def hand_updates(rng, nrandom: int = 60) -> list[Msg]:
             origin = 'hand-mp'
         # two attributes with the same code make a duplicate: wanted now and then
         add(names, rng.choice(list(R.NLRIS)), origin)
+    # one attribute block (with NEXT_HOP, no MP: the collection object is shared by the cache), many message shapes:
+    # what is rendered around it, and how, differs (withdrawn routes make the encoders ask for NEXT_HOP among the attributes)
+    ctx_blocks = [base, base + ['med-1'], base + ['med-1', 'community', 'lp-100'], ['origin-igp', 'aspath-empty', 'nexthop-b', 'atomic', 'aggregator-4'],
+                  ['origin-egp', 'aspath-4only-b', 'nexthop', 'extcomm', 'large', 'unknown-trans']]  # fmt: skip
+    shapes = [('', '10/24'), ('', '10/24+11/24'), ('10/24', '32bit'), ('10/24+11/24', ''), ('32bit', '10/24'), ('', ''), ('', '32bit'), ('10/24', '')]
+    for bi, names in enumerate(ctx_blocks):
+        order = sorted(names, key=lambda x: (R.ATTRS[x][1], x))
+        for wd, nl in shapes:
+            body = R.update_body(R.NLRIS[wd] if wd else b'', R.block(order), R.NLRIS[nl] if nl else b'')
+            out.append(Msg(2, body, f'ctx{bi}:w={wd or "-"}:a={nl or "-"}', 'hand-ctx', order, nl))
     # withdraw-only, attribute-less
     out.append(Msg(2, R.update_body(R.NLRIS['10/24'], b'', b''), 'withdraw|10/24', 'hand'))
     out.append(Msg(2, R.update_body(R.NLRIS['10/24'], R.block(base), R.NLRIS['32bit']), 'withdraw+announce', 'hand'))
@@ -216,7 +226,8 @@ class Runner:
         self.next_id += 1
         jid = self.next_id
         self.jobs[jid] = {'specs': specs, 'steps': steps}
-        self.starter.setdefault(step_key(specs[steps[0]['s']], steps[0]), jid)
+        if not steps[0].get('ord'):  # a fresh twin is rendered in the canonical order
+            self.starter.setdefault(step_key(specs[steps[0]['s']], steps[0]), jid)
         self.pool.submit({'id': jid, 'specs': specs, 'steps': steps, 'rerender': True})
         return jid
 
@@ -227,7 +238,7 @@ class Runner:
             jid = self.starter.get(k)
             if jid is None or (self.pool.results.get(jid) or {}).get('skipped'):
                 self.starter.pop(k, None)
-                jid = self.submit([specs[st['s']]], [dict(st, s=0)])
+                jid = self.submit([specs[st['s']]], [{k: v for k, v in dict(st, s=0).items() if k != 'ord'}])
             ids.append(jid)
         return ids
 
@@ -273,6 +284,12 @@ def failures_of(seq: dict, twins: list[dict | None]) -> list[dict]:
         if again is not None and again != st['render']:
             out.append({'kind': 'altered', 'step': i, 'fields': diff_fields(st['render'], again)})
     return out
+
+
+def field_families(fields: list[str]) -> list[str]:
+    fam = {'json6': 'json', 'json6c': 'json', 'json6g': 'json', 'json4': 'json', 'text6': 'text', 'text4': 'text', 'coll': 'collection-methods',
+           'attributes': 'content', 'announces': 'content', 'withdraws': 'content', 'nlris': 'content', 'caps': 'content', 'str': 'content'}  # fmt: skip
+    return sorted({fam.get(f, f) for f in fields})
 
 
 def has(fails: list[dict], kind: str, step: int) -> bool:
@@ -398,12 +415,24 @@ def canon_history(run: Runner, specs: list[dict], steps: list[dict], seq: dict, 
     fresh = twins[i]['render']
     got = seq['steps'][i]['render']
     real = [c for c in f['attrs'] if c < REAL_CODES_MAX]
-    fallback = ({'what': 'history-dependent-decode', 'type': st['t'], 'fields': f['fields'], 'attrs': real}, {'specs': specs, 'steps': steps[: i + 1]},
+    fallback = ({'what': 'history-dependent-decode', 'type': st['t'], 'fields': field_families(f['fields']), 'attrs': real}, {'specs': specs, 'steps': steps[: i + 1]},
                 f'step {i} of the sequence renders differently from the same message decoded alone in a fresh process: fields {f["fields"]}')  # fmt: skip
     j = storing_step(seq, i)
+    fam = field_families(f['fields'])
+
+    def seen(c: dict) -> bool:
+        return json.dumps(c, sort_keys=True) in reported
+
     if j is None:
+        if st.get('ord') and seen({'what': 'rendering-depends-on-the-order-of-the-encoders', 'type': st['t'], 'fields': fam}):
+            return None
         if not may_shrink:
             return fallback
+        r = run.run_case(specs, [st])  # alone, but rendered in this step's order: is it the order within the message?
+        if r and has(failures_of(*r), 'history', 0):
+            f0 = [x for x in failures_of(*r) if x['kind'] == 'history' and x['step'] == 0][0]
+            return ({'what': 'rendering-depends-on-the-order-of-the-encoders', 'type': st['t'], 'fields': field_families(f0['fields'])}, {'specs': specs, 'steps': [st]},
+                    f'the same message alone in a fresh process renders differently when its renderings are asked for in another order: fields {f0["fields"]}')  # fmt: skip
         for k in range(i - 1, max(-1, i - 10), -1):  # is one earlier step enough?
             r = run.run_case(specs, [steps[k], st])
             if r and has(failures_of(*r), 'history', 1):
@@ -434,6 +463,24 @@ def canon_history(run: Runner, specs: list[dict], steps: list[dict], seq: dict, 
                     return {'what': 'stale-attribute-parse', 'params': [prm], 'attrs': [code]}, v[0], v[1]
         if unknown:
             return {'what': 'stale-attribute-parse', 'params': pdiff, 'attrs': real}, {'specs': [X, Y], 'steps': [dict(steps[j], s=0), dict(st, s=1)]}, stale_what(X, Y, data, pdiff, real, got, fresh) + ' (not reduced to one attribute: budget)'
+    if not pdiff and seen({'what': 'shared-collection-rendering-depends-on-earlier-rendering', 'fields': fam}):
+        return None
+    if not pdiff:
+        # served under the very same parameters: the parse is right, the shared collection renders differently
+        # (a rendering memoised on it by whoever rendered it first)
+        canon = {'what': 'shared-collection-rendering-depends-on-earlier-rendering', 'fields': field_families(f['fields'])}
+        pair_specs, pair = [X, Y], [dict(steps[j], s=0), dict(st, s=1)]
+        replay = {'specs': specs, 'steps': steps[: i + 1]}
+        if may_shrink:
+            r = run.run_case(pair_specs, pair)
+            if r and has(failures_of(*r), 'history', 1):
+                replay = {'specs': pair_specs, 'steps': pair}
+                f2 = [x for x in failures_of(*r) if x['kind'] == 'history' and x['step'] == 1][0]
+                canon['fields'] = field_families(f2['fields'])
+                got, fresh = r[0]['steps'][1]['render'], r[1][1]['render']
+        k0 = (f['fields'] or ['?'])[0]
+        return canon, replay, (f'UPDATE with attribute block {data[:60]} is handed the collection object of an earlier UPDATE with the same bytes on shape {X["name"]}; '
+                               f'its renderings {f["fields"]} differ from the fresh process, e.g. {k0}: in sequence {json.dumps(got.get(k0))[:300]} / alone in a fresh process {json.dumps(fresh.get(k0))[:300]}')  # fmt: skip
     # no single attribute explains it: the pair of messages as it is
     pair_specs, pair = [X, Y], [dict(steps[j], s=0), dict(st, s=1)]
     if may_shrink:
@@ -468,7 +515,7 @@ def canon_altered(run: Runner, specs: list[dict], steps: list[dict], seq: dict, 
                         f'when returned {first.get("caps")} ; at the end of the sequence {again.get("caps")}'))  # fmt: skip
         if out:
             return out
-    canon = {'what': 'object-altered-by-later-decode', 'object': first.get('class'), 'fields': f['fields']}
+    canon = {'what': 'object-altered-by-later-decode', 'object': first.get('class'), 'fields': field_families(f['fields'])}
     if json.dumps(canon, sort_keys=True) in reported:
         return []
     return [(canon, {'specs': specs, 'steps': steps}, f'the object returned for step {j} ({first.get("class")}) renders differently at the end of the sequence: fields {f["fields"]}')]
@@ -532,7 +579,7 @@ def gen_deliveries(rng, pool: list[Msg], cap: int) -> list[tuple[int, int, str]]
     for i, m in enumerate(pool):
         by_origin.setdefault(m.origin, []).append(i)
     pairs = [(0, 1), (0, 4), (0, 2), (1, 3), (0, 5), (0, 7), (6, 8), (0, 6)]
-    quota = {'hand': 0.46, 'mp': 0.10, 'encoder': 0.12, 'qa': 0.07, 'other': 0.16, 'malformed': 0.09}
+    quota = {'hand': 0.36, 'ctx': 0.16, 'mp': 0.08, 'encoder': 0.10, 'qa': 0.06, 'other': 0.16, 'malformed': 0.08}
 
     def take(idxs: list[int], share: float, both: float) -> None:
         idxs = list(idxs)
@@ -554,6 +601,20 @@ def gen_deliveries(rng, pool: list[Msg], cap: int) -> list[tuple[int, int, str]]
 
     take(by_origin.get('hand', []) + by_origin.get('hand-broken', []), quota['hand'], 0.9)
     take(by_origin.get('hand-mp', []), quota['mp'], 0.9)
+    fam: dict[str, list[int]] = {}
+    for m in by_origin.get('hand-ctx', []):
+        fam.setdefault(pool[m].tag.split(':')[0], []).append(m)
+    n = 0
+    for name in rng.sample(sorted(fam), len(fam)):
+        if n >= cap * quota['ctx']:
+            break
+        a = rng.choice([0, 0, 1, 6])
+        members = rng.sample(fam[name], rng.randrange(3, len(fam[name]) + 1))
+        g = [(a, m, 'message') for m in members]
+        if rng.random() < 0.4:
+            g += [(5 if a == 0 else a, m, 'message') for m in members[:2]]
+        groups.append(g)
+        n += len(g)
     take(by_origin.get('encoder', []), quota['encoder'], 0.7)
     take(by_origin.get('qa', []), quota['qa'], 0.5)
     take(by_origin.get('malformed', []), quota['malformed'], 0.5)
@@ -581,21 +642,32 @@ def gen_deliveries(rng, pool: list[Msg], cap: int) -> list[tuple[int, int, str]]
     return out
 
 
-def gen_sequence(rng, k: int, deliveries: list[tuple[int, int, str]], length: int) -> list[int]:
+def gen_sequence(rng, k: int, deliveries: list[tuple[int, int, str]], length: int, blocks: list | None = None) -> list[int]:
     """Job k: starts with delivery k (its fresh twin), then a walk over deliveries 0..k: a small working
     set that contains the same block on several shapes, repeated, with an occasional stranger."""
     by_msg: dict[int, list[int]] = {}
+    by_block: dict[tuple, list[int]] = {}
     for i in range(k + 1):
         by_msg.setdefault(deliveries[i][1], []).append(i)
+        if blocks is not None and blocks[deliveries[i][1]] is not None:
+            by_block.setdefault((deliveries[i][0], blocks[deliveries[i][1]]), []).append(i)
     multi = [m for m, ds in by_msg.items() if len(ds) >= 2]
+    multib = [b for b, ds in by_block.items() if len(ds) >= 2]
     work: list[int] = list(by_msg[deliveries[k][1]])
     for _ in range(rng.randrange(1, 4)):
         if multi:
             work += by_msg[rng.choice(multi)]
+    for _ in range(rng.randrange(0, 3)):
+        if multib:  # the same attribute bytes in differently shaped UPDATEs on one session shape
+            work += by_block[rng.choice(multib)]
     work += [rng.randrange(k + 1) for _ in range(rng.randrange(1, 5))]
     seq = [k]
     for _ in range(length - 1):
-        seq.append(rng.choice(work) if rng.random() < 0.8 else rng.randrange(k + 1))
+        x = rng.random()
+        if x < 0.12:
+            seq.append(seq[-1])  # the very same message again (repeated End-of-RIB, OPEN, NOTIFICATION, UPDATE)
+        else:
+            seq.append(rng.choice(work) if x < 0.82 else rng.randrange(k + 1))
     return seq
 
 
@@ -659,10 +731,18 @@ def _run(ctx: Ctx, rng, quick: bool, wpool: 'R.Pool') -> None:
     regs = registries()
     ndeliv = int(os.environ.get('VERIF_C19_JOBS', '64' if quick else '900'))
     deliveries = gen_deliveries(rng, mpool, ndeliv)
+    blocks: list = []
+    for m in mpool:
+        t = _tlvs_of_update(m.body) if m.t == 2 else None
+        blocks.append(b''.join(x for x, _ in t[1]) if t and t[1] else None)
     for k in range(len(deliveries)):
         length = rng.randrange(20, 70) if quick else rng.choice([rng.randrange(20, 80), rng.randrange(80, 200), rng.randrange(200, 400)])
-        idxs = gen_sequence(rng, k, deliveries, length)
-        cases.append({'specs': R.SPECS, 'steps': [step_of(deliveries[i], mpool) for i in idxs], 'origin': 'random'})
+        idxs = gen_sequence(rng, k, deliveries, length, blocks)
+        steps = [step_of(deliveries[i], mpool) for i in idxs]
+        for st in steps[1:]:  # step 0 is the fresh twin: always rendered in the canonical order
+            if rng.random() < 0.7:
+                st['ord'] = rng.randrange(1, 1000)
+        cases.append({'specs': R.SPECS, 'steps': steps, 'origin': 'random'})
     for c in cases:  # corpus first, each with the fresh twins of its steps
         if c['origin'] == 'corpus':
             c['id'] = run.submit(c['specs'], c['steps'])
